@@ -166,3 +166,31 @@ Example C01_delimit_nonvacuous :
   delimit_pos 1 7 1 10 RSelf (1, 7, 1, 10)%Z = (1, 7, 1, 12)%Z /\ delimit_pos 1 7 1 10 ROther (1, 10, 1, 12)%Z = (1, 12, 1, 14)%Z
   /\ delimit_pos 1 7 1 10 RInner (1, 9, 1, 10)%Z = (1, 10, 1, 11)%Z /\ delimit_pos 1 7 1 10 ROther (1, 4, 1, 14)%Z = (1, 4, 1, 16)%Z.
 Proof. exact delimit_fstring_field. Qed.
+
+(* ---- unpar undoes par: _unparenthesize_grouping (flags TRANSLATED) after _parenthesize_grouping returns every node to its position ---- *)
+Theorem C01_unpar_undoes_par_on_every_node : forall ls cs le ce l c el ec, pos_lt ls cs le ce = true ->
+  let e := (ce + b2z (le =? ls))%Z in
+  ungroup_pos ls cs le e RSelf (group_pos ls cs le ce RSelf (ls, cs, le, ce)) = (ls, cs, le, ce)
+  /\ (pos_lt l c el ec = true -> pos_le ls cs l c = true -> pos_le el ec le ce = true ->
+      ungroup_pos ls cs le e RInner (group_pos ls cs le ce RInner (l, c, el, ec)) = (l, c, el, ec))
+  /\ (pos_lt l c el ec = true -> pos_le le ce l c = true \/ pos_le el ec ls cs = true ->
+      ungroup_pos ls cs le e ROther (group_pos ls cs le ce ROther (l, c, el, ec)) = (l, c, el, ec))
+  /\ (pos_le l c ls cs = true -> pos_le le ce el ec = true ->
+      ungroup_pos ls cs le e ROther (group_pos ls cs le ce ROther (l, c, el, ec)) = (l, c, el, ec)).
+Proof.
+  intros ls cs le ce l c el ec HT e. repeat split.
+  - now apply ungroup_group_self.
+  - intros; now apply ungroup_group_inner.
+  - intros Hne [H|H]; [now apply ungroup_group_after | now apply ungroup_group_before].
+  - intros; now apply ungroup_group_ancestors.
+Qed.
+Print Assumptions C01_unpar_undoes_par_on_every_node.
+
+(* non-vacuity: x = a + b -> x = (a + b) -> x = a + b : the Assign, its target, the BinOp and its operands *)
+Example C01_unpar_nonvacuous :
+  map (fun rq => ungroup_pos 1 4 1 10 (fst rq) (group_pos 1 4 1 9 (fst rq) (snd rq)))
+      [(ROther, (1, 0, 1, 9)); (ROther, (1, 0, 1, 1)); (RSelf, (1, 4, 1, 9)); (RInner, (1, 4, 1, 5)); (RInner, (1, 8, 1, 9))]%Z
+  = [(1, 0, 1, 9); (1, 0, 1, 1); (1, 4, 1, 9); (1, 4, 1, 5); (1, 8, 1, 9)]%Z
+  /\ map (fun rq => group_pos 1 4 1 9 (fst rq) (snd rq)) [(ROther, (1, 0, 1, 9)); (RSelf, (1, 4, 1, 9)); (RInner, (1, 8, 1, 9))]%Z
+  = [(1, 0, 1, 11); (1, 5, 1, 10); (1, 9, 1, 10)]%Z.
+Proof. vm_compute. split; reflexivity. Qed.
